@@ -277,8 +277,9 @@ func (g *Gen) doAppend(st *BState, in ssa.Instruction, c *ssa.CallCommon, v ssa.
 		b1 := g.fresh("app_B", "(Array Int "+es+")")
 		g.assert(fmt.Sprintf("(forall ((i Int)) (! (= (select %[1]s i) (ite (and (<= (+ (s-off %[2]s) (s-len %[2]s)) i) (< i (+ (s-off %[2]s) %[3]s))) %[4]s (select (select %[5]s (s-arr %[2]s)) i))) :pattern ((select %[1]s i))))",
 			a1, s, newlen, tAt(fmt.Sprintf("(- i (+ (s-off %s) (s-len %s)))", s, s)), e0))
-		g.assert(fmt.Sprintf("(forall ((i Int)) (! (and (=> (and (<= 0 i) (< i (s-len %[2]s))) (= (select %[1]s i) (select (select %[5]s (s-arr %[2]s)) (+ (s-off %[2]s) i)))) (=> (and (<= (s-len %[2]s) i) (< i %[3]s)) (= (select %[1]s i) %[4]s))) :pattern ((select %[1]s i))))",
-			b1, s, newlen, tAt(fmt.Sprintf("(- i (s-len %s))", s)), e0))
+		// a freshly allocated array: old elements, appended elements, zeroed spare capacity
+		g.assert(fmt.Sprintf("(forall ((i Int)) (! (= (select %[1]s i) (ite (and (<= 0 i) (< i (s-len %[2]s))) (select (select %[5]s (s-arr %[2]s)) (+ (s-off %[2]s) i)) (ite (and (<= (s-len %[2]s) i) (< i %[3]s)) %[4]s %[6]s))) :pattern ((select %[1]s i))))",
+			b1, s, newlen, tAt(fmt.Sprintf("(- i (s-len %s))", s)), e0, zeroOf(et)))
 		if g.hasModifies && !g.allocs[c.Args[0]] {
 			// in-place append writes the backing array of s
 			save := st.pc
